@@ -1,5 +1,5 @@
 From Coq Require Extraction ExtrOcamlBasic.
-From SK Require Import Base.Prelude Base.F64 Spec.Bins Store.Any Stat.Summary Sketch.Sketch Wire.Wire Wire.Grammar Data.Dataset Mapping.Glue Extract.Instances.
+From SK Require Import Base.Prelude Base.F64 Spec.Bins Store.Any Stat.Summary Sketch.Sketch Wire.Wire Wire.Grammar Wire.GrammarRaw Data.Dataset Mapping.Glue Extract.Instances.
 From SK Require Import Codec.Codec.
 From SK Require Codec.Varfloat.
 Extraction Language OCaml.
@@ -13,7 +13,7 @@ Extraction "model.ml"
   (* stores *) st_new st_limit st_addw st_add st_foreach st_is_empty st_total st_min st_max st_key_at_rank st_merge st_clear st_copy
               st_reweight st_abs enc_store dec_store_all to_proto_d
   (* statistics *) su_new su_add su_merge su_get_sum su_reweight su_rescale su_from_data su_count su_sum su_min su_max
-  (* grammar *) ref_decode ref_parse serialize sem
+  (* grammar *) ref_decode ref_decode_raw ref_parse serialize sem
   (* sketch *) sk_new xk_add sk_count sk_is_empty xk_quantile sk_max sk_min sk_foreach sk_merge sk_clear sk_copy sk_reweight
               plain_is_empty plain_count map_equals within_tolerance
   (* wire *) xk_enc xk_dec_into ds_of_sketch ds_fresh sketch_of_ds enc_mapping dec_mapping
